@@ -276,6 +276,13 @@ class Proc:
 
 
 def impl():
+    # manual probes after a mutant / seed_try: a binary older than the library sources is stale (checks rebuild through need_harness first)
+    try:
+        newest = max(os.path.getmtime(os.path.join(dp, f)) for dp, _, fs in os.walk(os.path.join(REPO, "src")) for f in fs if f.endswith(".rs"))
+        if os.path.getmtime(MCDRIVE) < newest:
+            sys.stderr.write("[core] WARNING: mcdrive is older than /repo/src: rebuild it (core.build_harness()) before trusting a probe\n")
+    except (OSError, ValueError):
+        pass
     return Proc([MCDRIVE], "mcdrive")
 
 
